@@ -290,16 +290,23 @@ Proof.
     2:{ apply after_call_pure3; [done|done|]. split; [done|]. split; [exact Hen|]. split; [done|]. split; [done|]. cbn [fst snd]. lia. }
     assert (Ht : t ∈ U).
     { apply nth_error_In in Hnth. rewrite forallb_forall in Had. specialize (Had t Hnth). by apply bool_decide_eq_true in Had. }
+    rewrite (load_id _ _ _ (proj1 Hen)).
+    destruct (negb (read_state W D1 t CREATED_SLOT =? 0) || negb (read_state W D1 t CODE_SLOT =? 0)).
+    { apply after_call_pure3; [done|done|]. split; [done|]. split; [exact Hen|]. split; [done|]. split; [done|]. cbn [fst snd]. lia. }
     apply after_call_pure3; [done|done|].
     assert (Hstep : pstep3 U W D1 (do_call_gen true order (W, D1) self t v (create_run order o t sc body))).
     { apply do_call_gen_pure3; auto; [apply Hen|]. intros D2 Hwf2 Hc2 Hn2. rewrite create_run_eq.
-      pose proof (reset_ext W D2 t Hwf2) as Her.
+      pose proof (reset_ext W D2 t Hwf2) as Her0.
       assert (Hrf : cohp W (reset_obj D2 t) /\ total U W (reset_obj D2 t) = total U W D2).
       { destruct (objs D2 !! t) as [ot|] eqn:Eot; [by eapply reset_facts|]. unfold reset_obj. by rewrite Eot. }
-      destruct Hrf as [Hcr Htr].
-      destruct (forall_list3 U order o W body Hw Hbn IH Hp Hcb t (reset_obj D2 t) Ht (proj1 Her) Hcr (nn_reset D2 t Hn2))
+      destruct Hrf as [Hcr0 Htr0].
+      pose proof (set_state_ext W (reset_obj D2 t) t CREATED_SLOT 1 (proj1 Her0)) as Her1.
+      destruct (set_state_facts U W (reset_obj D2 t) t CREATED_SLOT 1 (proj1 Her0) Hcr0 Hw) as [Hcr Htr1].
+      assert (Her : ext W D2 (set_state W (reset_obj D2 t) t CREATED_SLOT 1)) by (eapply ext_trans; eauto).
+      assert (Htr : total U W (set_state W (reset_obj D2 t) t CREATED_SLOT 1) = total U W D2) by congruence.
+      destruct (forall_list3 U order o W body Hw Hbn IH Hp Hcb t _ Ht (proj1 Her) Hcr (nn_set_state W _ t CREATED_SLOT 1 Hbn (nn_reset D2 t Hn2)))
         as (HWb & Heb & Hcb2 & Hnb & Htb).
-      destruct (exec_list order o t body (W, reset_obj D2 t)) as [[Wb Db] ocb].
+      destruct (exec_list order o t body (W, set_state W (reset_obj D2 t) t CREATED_SLOT 1)) as [[Wb Db] ocb].
       cbn [fst snd] in HWb, Heb, Hcb2, Hnb, Htb. subst Wb.
       assert (He2 : ext W D2 Db) by (eapply ext_trans; eauto).
       destruct ocb; unfold pstep3; cbn [fst snd].
